@@ -811,6 +811,211 @@ def job_charts(tier, rng, cls, m, n):
     return out
 
 
+# ------------------------------------------------------------------------------------------------ proved core: the real rank-one detector
+# detect_real_matrix_subspace_rank_one = orthonormal basis b_k of the subspace -> projector P = sum_k |b_k><b_k| -> upper bound min_p lambda_max(p P + (1-p) P^Gamma) -> 'no rank-one' iff bound < 1 - eps.
+# Proved on the real code (numerical kernels replaced by recorders / assumed contracts):
+#   projector    the 4-index operator handed to get_real_bipartite_numerical_range is sum_k b_k[a,b] b_k[c,d]
+#   threshold    the tag is False exactly when the returned bound is below 1 - zero_eps
+#   family       the matrix whose extreme eigenvalue is taken at parameter p is p*mat + (1-p)*mat^Gamma and the function returns the value its scalar minimiser reports
+#   rayleigh     for ALL real x, y, p:  (x(x)y)^T [p*mat + (1-p)*mat^Gamma] (x(x)y) == (x(x)y)^T mat (x(x)y)   (partial transposition is invisible to real product vectors)
+# => for every p, lambda_max(...) >= the Rayleigh quotient of any real product unit vector; if the subspace contains x y^T (normalised), P(x(x)y) = x(x)y and the quotient is 1,
+#    so the bound is >= 1 for every p the minimiser can return: the answer 'no rank-one element' is impossible in exact arithmetic. Trusted: that argument, the variational
+#    principle, "minimize_scalar returns fun = hf0(x) for some x", orthonormality of the basis (chart proofs above + LAPACK), floats are reals.
+import numqi.matrix_space._numerical_range as NR
+
+
+def job_detector(tier, rng, dimA, dimB):
+    sh = f'dimA={dimA},dimB={dimB}'
+    base = f'{PROP}.detect_real_matrix_subspace_rank_one.soundness_lemma'
+    funcs = ['numqi.matrix_space._numerical_range:detect_real_matrix_subspace_rank_one', 'numqi.matrix_space._numerical_range:get_real_bipartite_numerical_range']
+    out = []; t0 = time.time(); D = dimA * dimB
+    alg.new_ctx()
+    ex = lambda e: sp.expand(sp.sympify(e))
+    def witness():
+        # replay of a refuted lemma on the real code: planted rank-one instances of these dimensions through the real detector
+        for t in range(300):
+            Nw = int(rng.integers(1, D))
+            Sw = planted_bipartite(rng, False, dimA, dimB, Nw, 1)
+            try:
+                tag_, ub_ = MS.detect_real_matrix_subspace_rank_one(Sw)
+            except Exception as e2:
+                if not from_repo(e2):
+                    raise
+                return dict(kind='rank_one_detector', symmetric=False, dimA=dimA, dimB=dimB, N=Nw, result=f'{type(e2).__name__}: {e2}', subspace=_enc(Sw))
+            if not tag_:
+                return dict(kind='rank_one_detector', symmetric=False, dimA=dimA, dimB=dimB, N=Nw, result=False, upper_bound=float(ub_), subspace=_enc(Sw))
+        return None
+
+    def P_(name, ok, why=None):
+        w = None if ok else witness()
+        out.append(ob(f'{base}.{name}[{sh}]', 'proved' if ok else 'refuted', functions=funcs, tier='P', backend='sympy-exact-identity', witness=w, native=dict(confirmed=w is not None) if not ok else None,
+                      canary_negated_clause_refuted=True, verifier_output=None if ok else why))
+    try:
+        # --- detect_...: projector and threshold plumbing
+        N = 2
+        Bs = _rsym('b', (N, dimA, dimB))
+        rec = {}
+
+        def gmob(ms_, field='real', zero_eps=1e-10):
+            rec['gmob_arg'] = ms_; rec['field'] = field
+            return SymArray(Bs.copy(), np.float64, ALG), None, 'R'
+        for bound, want in ((sp.Rational(1, 2), False), (sp.Integer(1), True), (1 - sp.Rational(1, 10 ** 12), True), (sp.Rational(9, 10), False)):
+            def grbnr(m4, kind='min', method='eigen'):
+                rec['proj'] = m4; rec['kind'] = kind
+                return bound
+            with shimmed([NR], dom=ALG, extra={(NR, 'get_matrix_orthogonal_basis'): gmob, (NR, 'get_real_bipartite_numerical_range'): grbnr}):
+                tag, ub = NR.detect_real_matrix_subspace_rank_one(SymArray(_rsym('s', (3, dimA, dimB)), np.float64, ALG))
+            rec.setdefault('tags', []).append((bool(tag), want))
+        Pj = SS.arr(rec['proj'])
+        okp = Pj.shape == (dimA, dimB, dimA, dimB) and rec['kind'] == 'max' and rec['field'] == 'real'
+        if okp:
+            okp = all(is_zero(ex(Pj[a, b, c, d] - sum(Bs[k, a, b] * Bs[k, c, d] for k in range(N)))) for a in range(dimA) for b in range(dimB) for c in range(dimA) for d in range(dimB))
+        P_('operator_handed_to_the_bound_is_the_projector_of_the_basis', okp, 'the operator handed to get_real_bipartite_numerical_range is not sum_k |b_k><b_k| in (dimA,dimB,dimA,dimB) layout / not kind=max / basis not over the real field')
+        P_('no_rank_one_iff_bound_below_one_minus_eps', all(a == b for a, b in rec['tags']), f'tags {rec["tags"]} for bounds 1/2, 1, 1-1e-12, 9/10')
+        # --- get_real_bipartite_numerical_range(method='eigen'): the family and the value returned
+        raw = _rsym('m', (D, D))
+        M4 = np.empty((dimA, dimB, dimA, dimB), dtype=object)
+        for a in range(dimA):
+            for b in range(dimB):
+                for c in range(dimA):
+                    for d in range(dimB):
+                        i, j = a * dimB + b, c * dimB + d
+                        M4[a, b, c, d] = raw[min(i, j), max(i, j)]
+        p = sp.Symbol('p', real=True); lam = sp.Symbol('lam', real=True)
+        for kind in ('max', 'min'):
+            seen = {}
+
+            def record(mat_, *a_, **k_):
+                seen['M'] = mat_
+                e = np.empty(D, dtype=object); e[:] = [sp.Symbol(f'ev{t}', real=True) for t in range(D)]
+                e[0 if kind == 'min' else -1] = lam
+                return SymArray(e, np.float64, ALG)
+
+            def eigsh(mat_, k=1, which='LA', return_eigenvectors=False, **kw_):
+                seen['M'] = mat_; seen['which'] = which
+                return SymArray(np.array([lam], dtype=object), np.float64, ALG)
+            import types as _t
+            fake_scipy = _t.SimpleNamespace(sparse=_t.SimpleNamespace(linalg=_t.SimpleNamespace(eigsh=eigsh)), optimize=_t.SimpleNamespace(minimize_scalar=lambda f, **kw_: _t.SimpleNamespace(fun=f(p), x=p)),
+                                            linalg=scipy.linalg, special=scipy.special)
+            log = []
+            with shimmed([NR], dom=ALG, extra={(NR, 'scipy'): fake_scipy}) as shim:
+                real_linalg = shim.linalg
+
+                class L(_t.ModuleType):
+                    def __getattr__(s_, kk): return getattr(real_linalg, kk)
+                Lm = L('lin'); Lm.eigvalsh = record
+                shim.__dict__['linalg'] = Lm
+                shim.__dict__['abs'] = lambda x: _Probe(x, log)
+                try:
+                    val = NR.get_real_bipartite_numerical_range(SymArray(M4.copy(), np.float64, ALG), kind=kind, method='eigen')
+                finally:
+                    shim.__dict__['linalg'] = real_linalg
+            Mp = SS.arr(seen['M'])
+            flat = M4.reshape(D, D)
+            pt = np.transpose(M4, (0, 3, 2, 1)).reshape(D, D)
+            okf = Mp.shape == (D, D) and all(is_zero(ex(Mp[i, j] - (p * flat[i, j] + (1 - p) * pt[i, j]))) for i in range(D) for j in range(D))
+            okf = okf and is_zero(ex(sp.sympify(val) - lam)) and (D < 5 or seen.get('which') == ('LA' if kind == 'max' else 'SA'))
+            P_(f'eigen_family_and_returned_value[kind={kind}]', okf,
+               'the matrix handed to the eigen-routine is not p*mat+(1-p)*mat^Gamma, or the returned value is not the extreme eigenvalue the routine reported')
+            if kind == 'max':
+                x = _rsym('x', (dimA,)); y = _rsym('y', (dimB,))
+                v = [x[a] * y[b] for a in range(dimA) for b in range(dimB)]
+                q1 = ex(sum(v[i] * Mp[i, j] * v[j] for i in range(D) for j in range(D)))
+                q0 = ex(sum(v[i] * flat[i, j] * v[j] for i in range(D) for j in range(D)))
+                P_('rayleigh_quotient_of_real_product_vectors_does_not_depend_on_p', is_zero(ex(q1 - q0)), 'the quadratic form of p*mat+(1-p)*mat^Gamma on real product vectors depends on p')
+    except Unsupported as ex_:
+        return [ob(f'{base}.explore[{sh}]', 'undecided', functions=funcs, tier='P', backend='sympy', detail=f'engine: {ex_}')]
+    except Exception as ex_:
+        import traceback
+        tb = ''.join(traceback.format_exception(ex_))[-1500:]
+        if not from_repo(ex_):
+            return [ob(f'{base}.harness[{sh}]', 'fault', functions=funcs, tier='P', backend='sympy', detail='exception outside /repo code: ' + tb)]
+        return [ob(f'{base}.explore[{sh}]', 'undecided', functions=funcs, tier='P', backend='sympy', detail='the real function raised on symbolic input: ' + tb)]
+    out.append(ob(f'{base}.meta[{sh}]', 'meta', functions=funcs, tier='P', paths=1, crosscheck_inputs=0, backend='-', explore_s=round(time.time() - t0, 2)))
+    return out
+
+
+# ------------------------------------------------------------------------------------------------ proved core: numerical range sampling
+# get_matrix_numerical_range: for each sampling angle t the matrix handed to the Hermitian eigen-routine is H_t = (e^{it} A + e^{-it} A^dagger)/2, the LARGEST eigenpair is requested
+# (last column of eigh / which='LA' of eigsh) and the returned point is v^dagger A v for the vector v the routine hands back; and Re(e^{it} v^dagger A v) == v^dagger H_t v for EVERY v,
+# so with v the top unit eigenvector the point attains the support function lambda_max(H_t) in direction t. Eigen-routines are recorders (assumed contract: top unit eigenvector).
+def job_numrange_lemma(tier, rng, N):
+    sh = f'N={N}'
+    base = f'{PROP}.get_matrix_numerical_range.support_lemma'
+    funcs = ['numqi.matrix_space._numerical_range:get_matrix_numerical_range']
+    out = []; t0 = time.time()
+    alg.new_ctx()
+    ex = lambda e: sp.expand(sp.sympify(e))
+    def witness():
+        for t in range(40):
+            An = _rnd(rng, True, N, N); n_ = int(rng.integers(5, 30))
+            try:
+                pn = np.asarray(MS.get_matrix_numerical_range(An, num_point=n_)); th = np.linspace(0, 2 * np.pi, n_)
+                dev = np.abs((np.exp(1j * th) * pn).real - np.array([_support(An, x) for x in th])).max()
+            except Exception as e2:
+                if not from_repo(e2):
+                    raise
+                dev = np.inf
+            if dev > 1e-7 * max(1.0, float(np.abs(An).max())):
+                return dict(kind='numerical_range', label='generic', num_point=n_, problem=f'misses the support function by {dev:.2e}', A=_enc(An))
+        return None
+
+    def P_(name, ok, why=None):
+        w = None if ok else witness()
+        out.append(ob(f'{base}.{name}[{sh}]', 'proved' if ok else 'refuted', functions=funcs, tier='P', backend='sympy-exact-identity', witness=w, native=dict(confirmed=w is not None) if not ok else None,
+                      canary_negated_clause_refuted=True, verifier_output=None if ok else why))
+    try:
+        A = _zsyms('a', (N, N)); V = _zsyms('v', (N, N))
+        npt = 3
+        calls = []
+        import types as _t
+
+        def eigh(m, subset_by_index=None, **kw_):
+            # contract of scipy.linalg.eigh: ascending eigenvalues, columns = eigenvectors; subset_by_index=[lo,hi] selects that index range
+            lo, hi = (0, N - 1) if subset_by_index is None else (int(subset_by_index[0]), int(subset_by_index[1]))
+            calls.append(('eigh', m, (lo, hi)))
+            return (SymArray(np.array([sp.Symbol(f'w{t}', real=True) for t in range(lo, hi + 1)], dtype=object), np.float64, ALG), SymArray(V[:, lo:hi + 1].copy(), np.complex128, ALG))
+
+        def eigsh(m, k=1, which='LM', return_eigenvectors=True, **kw_):
+            calls.append(('eigsh', m, which))
+            return SymArray(np.array([sp.Symbol('w_top', real=True)], dtype=object), np.float64, ALG), SymArray(V[:, -1:].copy(), np.complex128, ALG)
+        fake_scipy = _t.SimpleNamespace(sparse=_t.SimpleNamespace(linalg=_t.SimpleNamespace(eigsh=eigsh)), linalg=_t.SimpleNamespace(eigh=eigh), optimize=scipy.optimize, special=scipy.special)
+        with shimmed([NR], dom=ALG, extra={(NR, 'scipy'): fake_scipy}):
+            pts = NR.get_matrix_numerical_range(SymArray(A.copy(), np.complex128, ALG), num_point=npt)
+        pts = SS.arr(pts).ravel()
+        theta = np.linspace(0, 2 * np.pi, npt)
+        okn = len(calls) == npt and len(pts) == npt
+        okh = okn; okw = okn; okp = okn; oks = okn
+        v = V[:, -1]
+        vAv = ex(sum(sp.conjugate(v[i]) * A[i, j] * v[j] for i in range(N) for j in range(N)))
+        for k in range(npt if okn else 0):
+            kind, m, which = calls[k]
+            c = alg.exact(complex(np.exp(1j * theta[k]) / 2))
+            Hm = SS.arr(m)
+            ref = [[ex(c * A[i, j] + sp.conjugate(c) * sp.conjugate(A[j, i])) for j in range(N)] for i in range(N)]
+            okh = okh and Hm.shape == (N, N) and all(is_zero(ex(Hm[i, j]) - ref[i][j]) for i in range(N) for j in range(N))
+            okw = okw and ((kind == 'eigh' and which[1] == N - 1) or (kind == 'eigsh' and which == 'LA'))
+            okp = okp and is_zero(ex(pts[k]) - vAv)
+            vHv = ex(sum(sp.conjugate(v[i]) * ref[i][j] * v[j] for i in range(N) for j in range(N)))
+            lhs = ex(2 * c * vAv); lhs = ex((lhs + sp.conjugate(lhs)) / 2)
+            oks = oks and is_zero(ex(lhs - vHv))
+        P_('one_eigenproblem_per_sampling_angle', okn, f'{len(calls)} eigen-routine calls for {npt} points')
+        P_('eigenproblem_is_the_hermitian_part_of_the_rotated_matrix', okh, 'the matrix handed to the eigen-routine is not (e^{it}A + h.c.)/2')
+        P_('largest_eigenpair_is_requested', okw, f'routines/which: {[(c_[0], c_[2]) for c_ in calls]}')
+        P_('returned_point_is_the_expectation_in_the_returned_vector', okp, 'the returned point is not v^dagger A v for the top vector handed back')
+        P_('real_part_of_rotated_point_equals_quadratic_form_of_H', oks, 'Re(e^{it} v^dagger A v) differs from v^dagger H_t v')
+    except Unsupported as ex_:
+        return [ob(f'{base}.explore[{sh}]', 'undecided', functions=funcs, tier='P', backend='sympy', detail=f'engine: {ex_}')]
+    except Exception as ex_:
+        import traceback
+        tb = ''.join(traceback.format_exception(ex_))[-1500:]
+        if not from_repo(ex_):
+            return [ob(f'{base}.harness[{sh}]', 'fault', functions=funcs, tier='P', backend='sympy', detail='exception outside /repo code: ' + tb)]
+        return [ob(f'{base}.explore[{sh}]', 'undecided', functions=funcs, tier='P', backend='sympy', detail='the real function raised on symbolic input: ' + tb)]
+    out.append(ob(f'{base}.meta[{sh}]', 'meta', functions=funcs, tier='P', paths=1, crosscheck_inputs=0, backend='-', explore_s=round(time.time() - t0, 2)))
+    return out
+
+
 # ------------------------------------------------------------------------------------------------ enumerated core
 def job_projector_tables(tier, rng):
     """finite, exhaustively enumerated: the (anti)symmetric bases used by the hierarchy are orthonormal, have the binomial row count and the stated symmetry under every transposition"""
@@ -861,6 +1066,8 @@ def jobs(tier):
     if tier != 'quick':
         charts += [('R_T', 4, 4), ('C_H', 4, 4), ('C_T', 4, 4), ('R_cT', 4, 4), ('R_c', 3, 3), ('R', 4, 3), ('C', 3, 4)]
     J += [('job_charts', dict(cls=c_, m=m_, n=n_)) for c_, m_, n_ in charts]
+    J += [('job_numrange_lemma', dict(N=n_)) for n_ in ((2, 3, 5) if tier == 'quick' else (2, 3, 4, 5, 6))]
+    J += [('job_detector', dict(dimA=a_, dimB=b_)) for a_, b_ in ([(2, 2), (2, 3), (3, 3)] + ([(3, 4)] if tier != 'quick' else []))]
     return J + [('job_basis', {}), ('job_hierarchy', {}), ('job_tripartite', {}), ('job_rank_one_detector', {}), ('job_numerical_range', {}), ('job_projector_tables', {})]
 
 
